@@ -190,18 +190,18 @@ func init() {
 		O := func(k string) tstep { return tstep{K: k} }
 		M := func(k, doc string) tstep { return tstep{K: k, Doc: doc} }
 		scripts := map[string][]tstep{
-			"build-out":         {N("r"), A(0, "a"), A(0, "b"), O("T")},
-			"out-add-out":       {N("r"), A(0, "a"), O("T"), A(0, "b"), O("T")},
-			"deep-walk":         {N("r"), A(0, "a"), A(1, "b"), A(0, "c"), O("W"), O("T")},
-			"json-out":          {N("q"), A(0, "a"), O("J"), A(1, "a"), O("T")},
-			"md-text":           {M("M", "- x\n  - y\n  - z\n    - w\n")},
-			"md-text-2":         {M("M", "- p\n    - q\n        - r\n    - s\n- t\n")},
-			"md-walk":           {M("X", "* x\n\t* y\n\t\t* z\n\t* w\n")},
-			"md-dry":            {M("Y", "- x\n  - b\n  - c\n")},
-			"md-heading":        {M("M", "# h\n- a\n  - b\n# i\n- c\n")},
-			"md-twice":          {M("M", "- x\n  - y\n"), M("M", "- x\n    - y\n    - z\n")},
-			"root-then-md":      {N("r"), A(0, "a"), O("T"), M("M", "- x\n  - y\n")},
-			"dry-spread":        {N("r"), A(0, "b"), A(0, "a"), A(2, "b"), O("D")},
+			"build-out":    {N("r"), A(0, "a"), A(0, "b"), O("T")},
+			"out-add-out":  {N("r"), A(0, "a"), O("T"), A(0, "b"), O("T")},
+			"deep-walk":    {N("r"), A(0, "a"), A(1, "b"), A(0, "c"), O("W"), O("T")},
+			"json-out":     {N("q"), A(0, "a"), O("J"), A(1, "a"), O("T")},
+			"md-text":      {M("M", "- x\n  - y\n  - z\n    - w\n")},
+			"md-text-2":    {M("M", "- p\n    - q\n        - r\n    - s\n- t\n")},
+			"md-walk":      {M("X", "* x\n\t* y\n\t\t* z\n\t* w\n")},
+			"md-dry":       {M("Y", "- x\n  - b\n  - c\n")},
+			"md-heading":   {M("M", "# h\n- a\n  - b\n# i\n- c\n")},
+			"md-twice":     {M("M", "- x\n  - y\n"), M("M", "- x\n    - y\n    - z\n")},
+			"root-then-md": {N("r"), A(0, "a"), O("T"), M("M", "- x\n  - y\n")},
+			"dry-spread":   {N("r"), A(0, "b"), A(0, "a"), A(2, "b"), O("D")},
 		}
 		pairs := [][2]string{
 			{"build-out", "build-out"}, {"out-add-out", "out-add-out"}, {"out-add-out", "deep-walk"}, {"deep-walk", "json-out"},
